@@ -24,8 +24,15 @@ def literal_label_compares(prog):
     return hits
 
 
+class _Relabel:
+    """report obligations of a shared rule under this property's rule id"""
+    def __init__(s, rep, rid): s.rep, s.rid = rep, rid
+    def ob(s, rule, key, verdict, detail='', site='', **kw): return s.rep.ob(s.rid, f'{rule.split(".")[0]}:{key}', verdict, detail, site)
+
+
 def run(rep, prog, tier):
     rep.rule('R03.space', 'every matrix axis of the steady-state, state-space, transient and port-impedance code is addressed only through the map that laid it out: an index, slice, product or stack never joins two different label spaces (must hold for every label set, not for one naming scheme)')
+    rep.rule('R03.layout', 'the linear systems are laid out (non-reference nodes, then ideal voltage sources) x the same; states = c_values then l_values; inputs = current sources then non-inductor voltage sources')
     rep.rule('R03.antisym', 'every incidence site treats node1 / node2 antisymmetrically, so reversing an element flips exactly its own voltage and current')
     rep.rule('R03.ref', 'inside Network/ the reference node is obtained from node_zero_label / is_zero_node only: no string literal is compared with a node label')
     rep.assume('A1: no current source is an inductor (inductors are Z=0, V=0 branches, i.e. of ideal-voltage-source type)')
@@ -34,6 +41,9 @@ def run(rep, prog, tier):
     n = SR.emit(rep, 'R03.space', interps, ['mna', 'bias', 'ssm', 'model', 'wrapper', 'transient', 'port'])
     rep.count('space_obligations', n)
     if n < 200: rep.error(f'only {n} index-space obligations found')
+    from .c10 import layout as layout10
+    c01.layout(_Relabel(rep, 'R03.layout'), interps)
+    layout10(_Relabel(rep, 'R03.layout'), interps)
     # antisymmetry (shared with C01's sign table)
     tmp_signs = []
     for e in ('mna', 'ssm'):
